@@ -26,10 +26,10 @@
     * ε < 1/2 (`overshoot_run_eps_quarter`): on [10, 1000] with ε = 1/4, tol = 1 there are ordinate
       tapes (alternating sign, each ordinate 1000× the previous: every new point "overshoots"
       |f(a)|, so `provide_ordinate` swaps the ends and `|c − d|` stays of the order of the width)
-      along which 120 iterations do not converge, although `n·(2m+2)` would be 10·(2·7+2) = 160
-      for ε = 1 and the same family runs as long as one likes (each step removes only a 1/1001 of
-      the bracket): no bound in terms of (L, H, ε, tol) alone exists for small ε. With the
-      solver's ε = 1 the very same tape converges in 16 iterations (`overshoot_run_eps_one`).
+      along which 120 iterations do not converge; `no_uniform_bound_eps_quarter` proves it for
+      every N (growth factor 4N+4: each step removes only 1/(4N+5) of the bracket, `Brent.over_step`):
+      no bound in terms of (L, H, ε, tol) alone exists for ε = 1/4. With the solver's ε = 1 the very
+      same tape converges in 16 iterations (`overshoot_run_eps_one`; bound 160).
     * bracket with 0 inside (`creeping_never_terminates`, proved for every amount of fuel in every
       ordered field; hence `terminatesAlways_false : ¬ C19.TerminatesAlways α`): f(x) = x/(8 + x)/8 on
       [−4, 1], ε = 1, tol = 1 — smooth and increasing — makes the secant step exactly `−b/2`; it is
@@ -41,6 +41,7 @@
 -/
 import EmuVerif.Props.C19
 import EmuVerif.Proofs.BrentCreep
+import EmuVerif.Proofs.BrentOvershoot
 import Mathlib.Algebra.Order.Archimedean.Basic
 
 set_option linter.unusedSectionVars false
@@ -178,6 +179,19 @@ theorem uniformBound_eps_quarter_false : ¬ UniformBound 10 1000 (1 / 4) 1 120 :
     have h2 := hU _ _ s (overshootTape (1000 * tiny) 1000 120) hi (by simp [overshootTape])
     rw [h1] at h2
     exact absurd h2 (by simp)
+
+/-- **ε = 1/4: no bound whatsoever.** For every `N` there are end ordinates and a tape of `N`
+ordinates (alternating signs, growing by the factor `4N + 4`, all tiny: `Brent.ovTape`) on
+[10, 1000] with tolerance 1 along which the real stepping logic has not converged. -/
+theorem no_uniform_bound_eps_quarter (N : Nat) : ¬ UniformBound 10 1000 (1 / 4) 1 N := by
+  intro hU
+  obtain ⟨hR, hinit, hov⟩ := over_init (α := ℚ) N (4 * (N : ℚ) + 4)
+    (1 / (16 * (4 * (N : ℚ) + 4) ^ (N + 1))) rfl rfl
+  have h1 := hU _ _ _ (ovTape (4 * (N : ℚ) + 4) ((4 * (N : ℚ) + 4) * (1 / (16 * (4 * (N : ℚ) + 4) ^ (N + 1)))) N)
+    hinit (by rw [ovTape_length])
+  have h2 := over_run hR N _ [] hov
+  rw [h2] at h1
+  exact absurd h1 (by simp)
 
 /-! ### Zero inside the bracket: the loop never ends (ε = 1, tolerance 1, smooth increasing f) -/
 
